@@ -347,6 +347,74 @@ def chunk_eof(u: U):
     u.check("C04.eof.latched", w._eof == True, "the writer is marked finished")  # noqa: E712
 
 
+@unit("C04", "chunk.compressed", functions=[f"{MOD}:StreamWriter.write", f"{MOD}:StreamWriter.write_eof"],
+      must_cover=("C04.compressed.write.sent", "C04.compressed.write.swallowed", "C04.compressed.eof.sent"))
+def chunk_compressed(u: U):
+    """write / write_eof with a compressor installed: what goes on the wire is framed from what the COMPRESSOR returned
+    (its bytes in order: compress(chunk) then, at the end, flush()), never from the caller's chunk - chunked: one frame
+    whose hex length is the length of exactly those bytes, then the terminator; identity: those bytes; a write the
+    compressor swallows (returns nothing yet) emits nothing at all, pending headers stay pending"""
+    H = live()
+    which = ("write", "write_eof")[u.choose(2, "which")]
+    w, proto, tr, hb = mk_writer(u, length=None, eof=False)
+    from pyvc.values import methods as _m
+
+    for n in ("_write", "_writelines", "_write_chunked_payload", "_send_headers_with_payload"):
+        fn = u.load(MOD, f"StreamWriter.{n}")
+        _m(w)[n] = (lambda ff: lambda self, *a, **k: ff(self, *a, **k))(fn)
+    _m(w)["drain"] = lambda self: stubs.SAwait(name="drain")
+    c1 = SBytes.fresh("compressed")          # may be empty: the compressor buffers
+    fl = SBytes.fresh("flushed")
+    u.assume(blen(fl) > 0)                   # finishing a deflate / gzip stream always yields its trailer
+    calls = []
+
+    class _Comp:
+        def compress(self, data):
+            calls.append(("compress", data))
+            return stubs.SAwait(result=c1, name="compress")
+
+        def flush(self, *a):
+            calls.append(("flush",))
+            return fl
+
+        def __bool__(self):
+            return True
+
+    fields(w)["_compress"] = _Comp()
+    chunk = u.bytes("chunk")
+    chunked = w.chunked
+    f = u.load(MOD, f"StreamWriter.{which}")
+    out = u.call(f, w, chunk)
+    toks = wire_tokens(u)
+    if not out.ok:
+        u.check("C04.compressed.refusal", isinstance(out.exc, H.ClientConnectionResetError), f"got {out.exc!r}")
+        return
+    is_chunked = bool(u.branch(chunked, "chunked"))
+    fed = [c for c in calls if c[0] == "compress"]
+    u.check("C04.compressed.input_is_the_chunk", all(c[1] is chunk for c in fed) and len(fed) <= 1,
+            "the compressor is fed the caller's chunk, once")
+    if which == "write":
+        u.check("C04.compressed.write.no_flush", ("flush",) not in calls, "write() does not end the compressed stream")
+        if u.branch(blen(c1) > 0, "compressor returned bytes"):
+            expect_frames(u, "C04.compressed.write.frame", toks, headers=hb, body=c1, chunked=is_chunked, terminator=False)
+            u.cover("C04.compressed.write.sent")
+        else:
+            u.check("C04.compressed.write.swallowed_emits_nothing", len(toks) == 0,
+                    "nothing is written while the compressor holds the data back (an empty chunk frame would end the body)")
+            if hb is not None:
+                u.check("C04.compressed.write.headers_still_pending", And(w._headers_buf is hb, w._headers_written == False),  # noqa: E712
+                        "pending headers stay pending")
+            u.cover("C04.compressed.write.swallowed")
+        u.check("C04.compressed.write.no_eof", Not(w._eof), "write() never ends the message")
+        return
+    u.check("C04.compressed.eof.flushed_once", calls.count(("flush",)) == 1, "the compressed stream is finished exactly once")
+    has_c1 = bool(u.branch(blen(chunk) > 0, "has_last_chunk")) and bool(u.branch(blen(c1) > 0, "compressor returned bytes"))
+    body = (c1 + fl) if has_c1 else fl
+    expect_frames(u, "C04.compressed.eof.frame", toks, headers=hb, body=body, chunked=is_chunked, terminator=is_chunked)
+    u.check("C04.compressed.eof.latched", w._eof == True, "the writer is marked finished")  # noqa: E712
+    u.cover("C04.compressed.eof.sent")
+
+
 @unit("C04", "write_headers", functions=[f"{MOD}:StreamWriter.write_headers"])
 def write_headers(u: U):
     """write_headers: the header block is the result of _serialize_headers(status_line, headers) and nothing else;
